@@ -4,6 +4,7 @@ CONSTANTS
   ModIdx = 1
   PlanSet = "rt"
   Depth = 2
+  MaxCompose = 6
 INIT Init
 NEXT Next
 INVARIANTS RoundTrip WireCanonical Export
